@@ -224,3 +224,16 @@ _add("C41", "core", "stateful " + PBT + " (RuleBasedStateMachine) + generated fi
      "Histories over load/load-again/add/SubDict set/del/save+reload/clear on generated known_hosts files (plain, hashed, multi-host lines, repeated hosts, several key types, comments, junk lines): after every step "
      "lookup/check/keys agree with a harness parser applied to save() output, a fresh object loaded from that text agrees, and reloading changes nothing.",
      "Fixed pool of 8 keys and 5 host names; lines for which HostKeys.load lets InvalidHostKey escape are excluded (long-standing behaviour outside the statement).")
+
+_add("C35", "keys+refssh", PBT + ": generated key material x provenance x message x structured signature-blob mutation, against an independent strict verifier (cryptography + RFC 4253 blob parser); root-cause bucketing",
+     "RSA (3 hashes + cert names), ECDSA P-256/384/521, Ed25519; key objects generated, loaded from 27 bundled private files, built from public bytes, from_type_string, AgentKey inner key. Genuine signatures must verify under the "
+     "signing object and its public twin; any other data/key/algorithm name, bit flips, truncations, re-framings, malformed inner encodings (negative/oversized integers, wrong lengths, bad names, invalid UTF-8) must yield exactly False - never an exception.",
+     "RSA -cert-v01 names are treated as valid aliases. Blobs that trigger a quadratic inflate path (10-30 s, still False) were excluded while that finding was open.")
+_add("C36", "keys+refssh", PBT + ": generated serialisation / passphrase / umask / pre-existing-file cases with an independent public-blob encoder and verifier",
+     "Class(data=k.asbytes()) == k with equal fingerprint/name/bits/hash; private, public-only and cert-bearing objects of one key are equal, different keys unequal; written private keys (file and file-object variants, "
+     "passphrases incl. unicode/long/whitespace) load back equal and signing-capable (signature verified independently), None/wrong passphrase never yields a key, new files have mode & 0o077 == 0 under umask 0/022/077.",
+     "Ed25519 has no writer in paramiko: only bundled files are used for its passphrase clauses. Key files live on /dev/shm; umask is changed only around the write call.")
+_add("C37", "keys", "mutation fuzzing (" + PBT + " + coverage-guided atheris in thorough): byte/line/PEM-header/structure-aware OpenSSH-container edits of 45 seed key files; exception-type + halves-agree oracle",
+     "from_private_key(StringIO) / from_private_key_file on mutated files with password None/right/wrong, also loaded with the wrong class: either SSHException (incl. PasswordRequiredException) or a key that signs and whose "
+     "signature verifies under its own public encoding and under the independent verifier. Buckets = class / exception / source line.",
+     "bcrypt.kdf is memoised and capped at 64 rounds by the harness (more would only burn CPU; counted as excluded). PKey.from_path is not fuzzed. atheris is optional (thorough only).")
